@@ -10,7 +10,7 @@ from vlib import sh, log
 GROUP = "Wal"
 BINARY = "walcheck"
 
-SIG_TYPE = "single bit flip in a WAL record's Type byte (the record CRC covers only Data)"
+SIG_TYPE = "single bit flip in a WAL record's Type byte (the record CRC covers only Data)"   # or in the tag of the Type field
 SIG_COLL = "torn write whose zero-filled record Data has the same CRC-32C as the written Data (CRC-32 collision)"
 
 _POLY = 0x82F63B78
@@ -161,24 +161,39 @@ def parse_img_out(s):
 # ----------------------------------------------------------------------------- the property itself
 
 def effect(recs, k, start, drop=0, st0=(0, 0, 0)):
-    """ReadAll's meaning of the first k saved records when opened at snapshot `start`:
-    entries placed by index (a later same-index entry replaces the earlier one and truncates what
-    followed), newest hard state wins. None = ReadAll must refuse this prefix (gap / marker term)."""
+    """The meaning of the first k saved records when the log is reopened at snapshot `start`, stated over the
+    WHOLE log and independently of segment file names: the live log is built by placing every entry at its
+    index (a later write at an index replaces the earlier entry and truncates everything behind it — also
+    when that index is at or below the snapshot); the reopen returns the live entries beyond the snapshot
+    index and the newest hard state of the prefix. None = ReadAll must refuse (a gap beyond the snapshot,
+    a marker at the snapshot index with another term, live entries that do not start at index+1).
+    Records of purged segments (before `drop`) only contribute their hard state."""
     si, sterm = start
-    ents = []
-    st = st0
+    st = (0, 0, 0)
+    for r in recs[:k]:
+        if r[0] == "s":
+            st = (r[1], r[2], r[3])
+    log = []
     for r in recs[drop:k]:
         if r[0] == "e":
-            if r[1] > si:
-                up = r[1] - si - 1
-                if up > len(ents):
-                    return None
-                ents = ents[:up] + [(r[1], r[2], r[3])]
-        elif r[0] == "s":
-            st = (r[1], r[2], r[3])
-        else:
+            e = (r[1], r[2], r[3])
+            if not log or r[1] < log[0][0]:
+                log = [e]
+            else:
+                up = r[1] - log[0][0]
+                if up > len(log):
+                    # a gap in the saved history: ReadAll only notices it among the entries beyond the snapshot
+                    if r[1] > si and not (r[1] == si + 1 and log[-1][0] <= si):
+                        return None
+                    log = [e]
+                else:
+                    log = log[:up] + [e]
+        elif r[0] == "n":
             if r[1] == si and r[2] != sterm:
                 return None
+    ents = [e for e in log if e[0] > si]
+    if ents and ents[0][0] != si + 1:
+        return None
     return st, ents
 
 
@@ -214,7 +229,7 @@ def frame_map(data):
         stage = ["tag", "type"]
         q = p
         try:
-            cls[q] = "tag"; q += 1
+            cls[q] = "typetag"; q += 1
             while True:
                 cls[q] = "type"; q += 1
                 if data[q - 1] < 0x80:
@@ -296,7 +311,7 @@ def oracle(cases, impl):
             fclass = cur["fmap"][fi][0].get(int(f[2], 16) // 8, "unwritten")
             stats["flips"][fclass] = stats["flips"].get(fclass, 0) + 1
         sig = None
-        if fclass == "type":
+        if fclass in ("type", "typetag"):
             sig = SIG_TYPE
         if ik in ("T", "X", "Z"):
             stats["nocrc_evaluated"] = stats.get("nocrc_evaluated", 0) + 1
@@ -323,9 +338,12 @@ def oracle(cases, impl):
                 continue
         if not final.startswith("ok"):
             stats["loud"] += 1
-            if ik in ("F", "D") and o["at"] == (0, 0) and drop == 0 and effect(recs, len(recs), (0, 0)) is not None:
+            first_idx = int(cur["files"][0][0].split("-")[1], 16)
+            if ik in ("F", "D") and effect(recs, len(recs), o["at"], drop) is not None \
+                    and (o["at"] == (0, 0) or ("n", o["at"][0], o["at"][1]) in recs[drop:]) \
+                    and first_idx <= o["at"][0] and final != "snapmismatch":
                 fails.append(dict(name="undamaged-" + cid, case=case,
-                                  what="an undamaged log is refused: " + final))
+                                  what="an undamaged log is refused when opened at %x.%x: %s" % (o["at"] + (final,))))
             continue
         stats["ok_results"] += 1
         meta, st, ents = parse_result(final)
@@ -334,19 +352,9 @@ def oracle(cases, impl):
             fails.append(dict(name="meta-" + cid, case=case, signature=sig,
                               what="returned metadata %s differs from the written %s" % (meta, mh)))
             continue
-        # Open starts at the last segment whose name index is <= the snapshot index (searchIndex)
-        names = [f[0] for f in cur["files"]]
-        if ik == "D":
-            names = names[:-1]
-        sel = [n for n in names if int(n.split("-")[1], 16) <= o["at"][0]]
-        dsel = cur["segrec"].get(sel[-1], drop) if sel else drop
-        stsel = (0, 0, 0)
-        for r in recs[:dsel]:
-            if r[0] == "s":
-                stsel = (r[1], r[2], r[3])
-        ks = [k for k in range(dsel, len(recs) + 1) if effect(recs, k, o["at"], dsel, stsel) == (st, ents)]
-        if not ks and (st, ents) == ((0, 0, 0), []):
-            ks = [dsel]   # cut inside the segment's own header: not even the carried-over hard state
+        ks = [k for k in range(drop, len(recs) + 1) if effect(recs, k, o["at"], drop) == (st, ents)]
+        if not ks and (st, ents) == ((0, 0, 0), []) and len(cur["files"]) == 1 and ik in ("T", "X", "Z"):
+            ks = [drop]   # cut inside the only segment's own header: not even the carried-over hard state
         if not ks:
             fails.append(dict(name="notprefix-" + cid, case=case, signature=sig,
                               what="reopen returned (state %s, %d entries) which is not the effect of any prefix of the "
@@ -439,9 +447,9 @@ def run(ctx):
                             f.write("c%d." % i + line + "\n")
             runs.append(("corpus", "-replay %s" % cc))
         if quick:
-            runs.append(("fresh", "-seed %d -n 16 -img 40 -exhaustive 1 -ndec 400" % ctx.seed))
+            runs.append(("fresh", "-seed %d -n 14 -img 40 -exhaustive 1 -scen 12 -ndec 400" % ctx.seed))
         else:
-            runs.append(("fresh", "-seed %d -n 160 -img 200 -exhaustive 12 -ndec 6000" % ctx.seed))
+            runs.append(("fresh", "-seed %d -n 160 -img 200 -exhaustive 12 -big 3 -scen 150 -ndec 6000" % ctx.seed))
 
     all_mism, all_fail, total = [], [], 0
     hist_all, stats_all, nontriv, samples = {}, {}, set(), []
@@ -474,7 +482,7 @@ def run(ctx):
             samples.append(dict(history=hline[cid][:400], image=cmap[cid][1:], impl=impl.get(cid, "")[:300]))
 
     def search():
-        d2, err = run_both(ctx, "search", "-seed %d -n 60 -img 120 -exhaustive 6 -ndec 0" % (ctx.seed + 1000003))
+        d2, err = run_both(ctx, "search", "-seed %d -n 60 -img 120 -exhaustive 6 -scen 60 -ndec 0" % (ctx.seed + 1000003))
         if d2 is None:
             return []
         ks = {kf.get("signature") for kf in vlib.load_known_findings()
@@ -510,7 +518,8 @@ def run(ctx):
         distinct_nontrivial=len(nontriv),
         rule="histories from one seeded PRNG (Save with 0-3 entries of payload sizes 0..600 around the 8-byte padding and "
              "varint boundaries, suffix overwrites, hard-state changes, snapshot markers, ReleaseLockTo+purge, Sync; "
-             "SegmentSizeBytes 200..2048; both fsync modes) run through the real wal package; the segment files must equal "
+             "SegmentSizeBytes 200..2048; both fsync modes; thorough tier: also entries of 120-300 KB, beyond the page "
+             "writer's 128 KiB buffer, with 64-200 KB segments) run through the real wal package; the segment files must equal "
              "the model's byte for byte; the crash is placed inside the last operation; images of the tail: T cut+zero fill "
              "(every frame boundary +-9 and random offsets, exhaustive for short histories), X short file, Z zeroed 512-byte "
              "sectors after the sync point (single and pairs), B single bit flips, D tail segment missing, F undamaged. "
